@@ -167,5 +167,37 @@ func (o *vOwn) after(w *vWorld) string {
 	if len(probs) > 0 {
 		s += " !! " + strings.Join(probs, " ; ")
 	}
-	return s
+	return s + " %% " + o.dumpOwn(w)
+}
+
+// dumpOwn prints, for every buffer with a chain, per node `refer/<pool block>+<offset in block>/<origin's refer or ->`
+// (the ownership fields the ledger model `Netpoll.Buf.Owner` keeps; compared with `npdriver own` op by op).
+func (o *vOwn) dumpOwn(w *vWorld) string {
+	var parts []string
+	seen := map[int]bool{}
+	for _, id := range w.order {
+		vb := w.bufs[id]
+		if vb == nil || vb.b.head == nil || seen[id] {
+			continue
+		}
+		seen[id] = true
+		var nds []string
+		n := 0
+		for nd := vb.b.head; nd != nil && n < 100000; nd = nd.next {
+			n++
+			blk := "-1+0"
+			if cap(nd.buf) > 0 {
+				if bid, _, off := mcache.VerifBlockOf(nd.buf[:cap(nd.buf)]); bid >= 0 {
+					blk = fmt.Sprintf("%d+%d", bid, off)
+				}
+			}
+			org := "-"
+			if nd.origin != nil {
+				org = fmt.Sprintf("%d", nd.origin.refer)
+			}
+			nds = append(nds, fmt.Sprintf("%d/%s/%s", nd.refer, blk, org))
+		}
+		parts = append(parts, fmt.Sprintf("B%d:%s", id, strings.Join(nds, ",")))
+	}
+	return strings.Join(parts, " ")
 }
